@@ -859,8 +859,43 @@ Definition C07_check := check_with (fun c r =>
   orelse (C07_round c r) (orelse (C07_condition c r) (orelse (C08_no_wait_on_healthy c r)
          (orelse (C07_views c r) (C07_complete c r))))) proj_all true.
 (* after any crash cut or revision-write fault the rollout still ends where an uninterrupted one does *)
+(* at the end (faults over, a few more syncs done) every rolling child is recorded by at most one revision *)
+Definition C09_final_exclusive (c : ccase) : option string :=
+  let revs := filter (fun o => String.eqb (get_kind o) "ControllerRevision") (c_final c) in
+  let claims := flat_map (fun o => names_of (c_cfg c) (revision_of_json o)) revs in
+  if forallb (fun k => Nat.leb (List.length (filter (ck_eqb k) claims)) 1) claims then None
+  else Some "child-recorded-by-two-revisions-at-the-end".
+
+(* the stored revisions, followed through the accepted creates and deletes of all rounds: no revision is ever
+   created for a parent state (patch) that a stored revision of another name already stands for - a restarted
+   controller would find the children of that state recorded twice *)
+Definition C09_no_duplicate_state (c : ccase) : option string :=
+  let start := match c_rounds c with
+               | r :: _ => map (fun o => (get_name o, jget "parentPatch" (obj_map o))) (cached (r_cache r) rev_res)
+               | [] => [] end in
+  let step := fun (acc : list (string * json) * option string) (e : ev) =>
+    match acc with
+    | (live, Some w) => (live, Some w)
+    | (live, None) =>
+        match is_api e with
+        | Some q =>
+            if negb (String.eqb (q_res q) rev_res && accepted e) then (live, None) else
+            match q_verb q with
+            | VDelete => (filter (fun p => negb (String.eqb (fst p) (q_name q))) live, None)
+            | VCreate =>
+                let pt := jget "parentPatch" (obj_map (q_body q)) in
+                if existsb (fun p => jeqb (snd p) pt && negb (String.eqb (fst p) (q_name q))) live
+                then (live, Some "second-revision-created-for-the-same-parent-state")
+                else (live ++ [(q_name q, pt)], None)
+            | _ => (live, None)
+            end
+        | None => (live, None)
+        end
+    end in
+  snd (fold_left (fun acc r => fold_left step (r_events r) acc) (c_rounds c) (start, None)).
+
 Definition C09_check (c : ccase) : verdict :=
-  match C08_final c with
+  match orelse (C08_final c) (orelse (C09_final_exclusive c) (C09_no_duplicate_state c)) with
   | Some w => PROPFAIL ("after-interruption-" ++ w)%string
   | None => check_with (fun c r => orelse (C09_round c r) (C09_child_follows_its_revision c r)) proj_all true c
   end.
